@@ -31,6 +31,7 @@ ITEMS = [
     Type(EXPR, 'enum Var', attrs=DERIVE),
     Type(EXPR, 'struct Expr'),
     Type(EXPR, 'enum ExprKind'),
+    Type(VT, 'enum BoolType'),
     Type(VT, 'enum Type'),
     Type(VT, 'enum EntityKind'),
     Type(LV, 'struct EntityDerefLevel', attrs=DERIVE),
